@@ -378,6 +378,12 @@ V_MODULES = {"assert": "\n    that: [\"true\"]", "command": " \"true\"", "copy":
 V_KEYWORDS = {"become": "false", "become_user: ": None, "changed_when": "false", "check_mode": "false", "ignore_errors": "false", "name": "vn", "loop": "[1]",
               "register": "vr", "vars": "{vx: 1}", "when": "false"}
 V_KEYWORDS = {k.rstrip(": "): (v if v is not None else "root") for k, v in V_KEYWORDS.items()}
+# values of when / changed_when / check_mode: (yaml text, model shape); every `when` here is false or unreadable, so a task that IS built never runs
+V_WHEN = [("false", "bool"), ("[false]", ["seq", "bool"]), ("[false, \"a == 1\"]", ["seq", "bool", "str"]), ("0", "num"), ("\"false\"", "str"), ("[0, false, \"x\"]", ["seq", "num", "bool", "str"]),
+          ("[false, ~]", ["seq", "bool", "null"]), ("{a: b}", "map"), ("[[false]]", ["seq", ["seq", "bool"]]), ("[false, {a: b}]", ["seq", "bool", "map"]), ("[~]", ["seq", "null"])]
+V_CHANGED = [("false", "bool"), ("[true, 1]", ["seq", "bool", "num"]), ("\"true\"", "str"), ("~", "null"),
+             ("[true, ~]", ["seq", "bool", "null"]), ("{a: b}", "map"), ("[[true]]", ["seq", ["seq", "bool"]])]
+V_CHECK = [("true", "bool"), ("false", "bool"), ("~", "null"), ("yes", "str"), ("\"true\"", "str"), ("1", "num"), ("[true]", ["seq", "bool"]), ("{a: b}", "map"), ("no", "str")]
 V_OTHER = ["ignore-errors", "changed-when", "check-mode", "become-user", "When", "WHEN", "Debug", "COMMAND", "loops", "var", "registers", "ignoreerrors", "with_items", "tags", "notify",
            "module", "params", "global_params", "set-vars", "setvars", "shell", "when ", " when", "rash", "item", "", "debug ", "command.", "include_tasks", "block", "become_method"]
 V_NONSTR = ["7", "true", "~", "1.5", "[a, b]"]
@@ -387,7 +393,7 @@ def valid_entry(rng, clean=False):
     """(yaml text of one entry, s-expression of its key set); clean: one module plus keywords only"""
     r = rng.random()
     if r < 0.08 and not clean:
-        return rng.choice(["- just a string\n", "- 7\n", "- ~\n", "- [debug, x]\n", "- true\n"]), "notmap"
+        return rng.choice(["- just a string\n", "- 7\n", "- ~\n", "- [debug, x]\n", "- true\n"]), "notmap", ["null", "null", "null"]
     keys = []
     nm = 1 if clean else rng.choice([0, 1, 1, 1, 1, 1, 2])
     keys += [("m", k) for k in rng.sample(sorted(V_MODULES), nm)]
@@ -398,15 +404,23 @@ def valid_entry(rng, clean=False):
         keys.append(("n", rng.choice(V_NONSTR)))
     rng.shuffle(keys)
     if not keys:
-        return "- {}\n", ["keys"]
+        return "- {}\n", ["keys"], ["null", "null", "null"]
     # never let a generated task do anything: a task that is built is skipped (`when: false`) - the question is only
     # whether the FILE is accepted
     if not any(k == "when" for _, k in keys):
         keys.append(("k", "when"))
     L = []
+    vals = dict(when="null", changed_when="null", check_mode="null")
     for kind, k in keys:
         if kind == "m":
             L.append("%s:%s" % (k, V_MODULES[k]))
+        elif kind == "k" and k in vals:
+            tab = dict(when=V_WHEN, changed_when=V_CHANGED, check_mode=V_CHECK)[k]
+            # mostly the readable forms; with clean=True only those
+            good = [x for x in tab if x[1] in ("bool", "num", "null") or (k != "check_mode" and (x[1] == "str" or (isinstance(x[1], list) and all(y in ("bool", "num", "str") for y in x[1][1:]))))]
+            txt, shape = rng.choice(good if clean or rng.random() < 0.6 else tab)
+            vals[k] = shape
+            L.append("%s: %s" % (k, txt))
         elif kind == "k":
             L.append("%s: %s" % (k, V_KEYWORDS[k]))
         elif kind == "o":
@@ -414,7 +428,7 @@ def valid_entry(rng, clean=False):
         else:
             L.append("? %s\n: x" % k if k.startswith("[") else "%s: x" % k)
     text = "- " + "\n".join(L).replace("\n", "\n  ") + "\n"
-    return text, ["keys"] + [(["s", hx(k)] if kind != "n" else "other") for kind, k in keys]
+    return text, ["keys"] + [(["s", hx(k)] if kind != "n" else "other") for kind, k in keys], [vals["when"], vals["changed_when"], vals["check_mode"]]
 
 
 def c11_validity(run):
@@ -422,7 +436,7 @@ def c11_validity(run):
     whether the file is accepted; rash must run the marker (and exit 0) exactly then, and run NOTHING otherwise"""
     rng = run.rng
     n = 150 if run.tier == "quick" else 3000
-    files, sxs = [], []
+    files, sxs, vsx = [], [], []
     for i in range(n):
         # half of the files are valid by construction apart from at most one freely generated entry
         k = rng.randint(1, 3)
@@ -431,16 +445,19 @@ def c11_validity(run):
             ents = [valid_entry(rng, clean=(x != odd)) for x in range(k)]
         else:
             ents = [valid_entry(rng) for _ in range(k)]
-        text = "#!/usr/bin/env rash\n- command: \"echo vmark >> ROOT/log\"\n" + "".join(t for t, _ in ents)
+        text = "#!/usr/bin/env rash\n- command: \"echo vmark >> ROOT/log\"\n" + "".join(t for t, _, _ in ents)
         files.append(text)
-        sxs.append(sx(["validfile", ["keys", ["s", hx("command")]]] + [e for _, e in ents]))
+        sxs.append(sx(["validfile", ["keys", ["s", hx("command")]]] + [e for _, e, _ in ents]))
+        vsx.append(sx(["validvals"] + [v for _, _, v in ents]))
     mouts = C.run_oracle(sxs)
+    vouts = C.run_oracle(vsx)
     cases = [dict(files={"main.rh": dict(raw=t), "vinc.rh": dict(raw="#!/usr/bin/env rash\n- debug:\n    msg: vinc\n")}, desc=dict(validity=i)) for i, t in enumerate(files)]
     outs = E.run_impls(cases)
     dist = dict(valid=0, invalid=0)
-    for t, mo, o in zip(files, mouts, outs):
+    for t, mo, vo, o in zip(files, mouts, vouts, outs):
         r = parse_sx(mo)
-        fv = r[-1] == "t"
+        fv = r[-1] == "t" and all(x == "t" for x in parse_sx(vo))      # keys (validate_attrs, get_module_name) AND values (get_task)
+        mo = mo + " " + vo
         dist["valid" if fv else "invalid"] += 1
         ran = bool(o["log"])
         if fv and (o["rc"] != 0 or not ran):
